@@ -11,7 +11,17 @@ package main
 // docs/content/feature/http-redirects.md (written as "route add" text or
 // generated from a "urlprefix-... redirect=<code>,<url>" tag by the real
 // registry/consul routecmd), plain proxy routes and routes with an out-of-range
-// redirect code.
+// redirect code. The strip option takes every relation to the route path and
+// the request path: equal to the route path, a proper prefix of it, longer
+// than it, a segment the request path carries further right (once or twice)
+// but not in front, and one it does not contain.
+//
+// Requests carry whatever a client may send besides what the property speaks
+// about: any method, bodies (fixed length and chunked), websocket upgrade and
+// server-sent-event headers, cookies, credentials, forwarding headers and so on.
+// The answer of a redirect route depends on none of it, and "no upstream is
+// contacted" is checked over every connection fabio opens (simnet dial log,
+// all addresses - the host named in the redirect target included).
 //
 // Three modes, chosen per run:
 //   tasks          2-8 tasks call the real HTTPProxy.ServeHTTP of
@@ -26,7 +36,9 @@ package main
 //
 // Oracle: a reference expansion written from the property statement and the
 // documentation (c13Expand/c13Expect below); fabio's BuildRedirectURL is not
-// consulted.
+// consulted. A redirect that certainly points back at the request is never an
+// admitted answer: the next matching host's route answers, and when no further
+// host has a route the configured no-route status is due.
 
 import (
 	"bufio"
@@ -76,14 +88,17 @@ type c13Slot struct {
 }
 
 type c13Req struct {
-	ID     string `json:"id"`
-	Slot   int    `json:"slot"`
-	Method string `json:"method"`
-	Host   string `json:"host"`
-	Path   string `json:"path"` // escaped, as written on the wire
-	Query  string `json:"query,omitempty"`
-	XFP    string `json:"x_forwarded_proto,omitempty"`
-	Chunks []int  `json:"write_chunks,omitempty"`
+	ID      string     `json:"id"`
+	Slot    int        `json:"slot"`
+	Method  string     `json:"method"`
+	Host    string     `json:"host"`
+	Path    string     `json:"path"` // escaped, as written on the wire
+	Query   string     `json:"query,omitempty"`
+	XFP     string     `json:"x_forwarded_proto,omitempty"`
+	Extra   []h2Header `json:"extra_headers,omitempty"` // whatever else the request carries
+	BodyLen int        `json:"body_len,omitempty"`
+	Chunked bool       `json:"chunked_body,omitempty"`
+	Chunks  []int      `json:"write_chunks,omitempty"`
 }
 
 type c13Client struct {
@@ -97,6 +112,7 @@ type c13Scenario struct {
 	Exact80      bool        `json:"exact_host_pattern_with_port_80,omitempty"`
 	Slots        []c13Slot   `json:"slots"`
 	Clients      []c13Client `json:"clients"`
+	NoRoute      int         `json:"no_route_status"`
 	Stick        int         `json:"stick"`
 }
 
@@ -120,11 +136,72 @@ var c13Prepends = []string{"", "", "", "/pre", "/pre/fix"}
 // identity, plus explicit escapes of reserved characters and of characters that
 // must be escaped. Every suffix is empty or starts with a slash.
 var c13Suffixes = []string{"", "/", "/a", "/a/b", "/a%2Fb", "/x%20y", "/100%25", "/caf%C3%A9", "/a;v=1", "/a,b", "/a+b",
-	"/%2F", "/a%2fb/c", "/a%3Fb", "/a%23b", "/a%3Bb", "/~u/-_.", "/A/b", "/a/b/"}
+	"/%2F", "/a%2fb/c", "/a%3Fb", "/a%23b", "/a%3Bb", "/~u/-_.", "/A/b", "/a/b/",
+	// material for the strip option: the segment "/s" first, later, twice, alone
+	"/s", "/s/a", "/a/s/b", "/s/s/a", "/s/x%2Fy", "/a%2Fb/s", "/a/s"}
 var c13Queries = []string{"", "", "a=1", "a=1&a=2&b", "x=%2F%20&y=+", "q=a%26b"}
 var c13Hosts = []string{c13ExactHost, "api.example.com", "other.test", c13ExactHost + ":80", c13ExactHost + ":8080"}
 var c13XFPs = []string{"", "https", "http"}
-var c13Methods = []string{"GET", "GET", "HEAD", "POST", "DELETE"}
+var c13Methods = []string{"GET", "GET", "HEAD", "POST", "DELETE", "PUT", "PATCH", "OPTIONS"}
+var c13NoRoute = []int{404, 404, 503, 410, 404}
+
+// What else a request may carry. A redirect route answers from the request line,
+// the host and X-Forwarded-Proto alone; none of these may change the answer.
+var c13Extras = [][]h2Header{
+	nil, nil, nil,
+	{{"Upgrade", "websocket"}, {"Connection", "Upgrade"}, {"Sec-WebSocket-Key", "dGhlIHNhbXBsZSBub25jZQ=="}, {"Sec-WebSocket-Version", "13"}},
+	{{"Accept", "text/event-stream"}},
+	{{"Cookie", "sid=abc; theme=dark"}},
+	{{"Upgrade", "Websocket"}, {"Connection", "upgrade"}},
+	{{"Accept", "text/html,application/xhtml+xml;q=0.9,*/*;q=0.8"}, {"Accept-Language", "de,en;q=0.5"}},
+	{{"Authorization", "Basic dXNlcjpwYXNz"}},
+	{{"Accept", "text/event-stream"}, {"Cache-Control", "no-cache"}, {"Last-Event-ID", "17"}},
+	{{"Referer", "http://www.example.com/p0/a"}, {"Origin", "http://www.example.com"}},
+	{{"X-Forwarded-Host", "evil.test"}, {"X-Forwarded-For", "203.0.113.7"}, {"X-Forwarded-Port", "8443"}},
+	{{"Forwarded", "for=203.0.113.7;proto=https;host=evil.test"}},
+	{{"Upgrade", "WebSocket"}, {"Connection", "keep-alive, Upgrade"}},
+	{{"Upgrade", "h2c"}, {"Connection", "Upgrade, HTTP2-Settings"}, {"HTTP2-Settings", "AAMAAABkAAQAAP__"}},
+	{{"Content-Type", "application/json"}},
+	{{"Location", "http://evil.test/"}, {"X-Real-Ip", "203.0.113.9"}},
+	{{"If-None-Match", "\"abc\""}, {"If-Modified-Since", "Sat, 01 Jan 2000 00:00:00 GMT"}},
+	{{"Range", "bytes=0-9"}},
+}
+
+// c13IsWS: the request asks for a websocket upgrade (any spelling).
+func c13IsWS(hs []h2Header) bool {
+	for _, h := range hs {
+		if strings.EqualFold(h.K, "Upgrade") && strings.EqualFold(h.V, "websocket") {
+			return true
+		}
+	}
+	return false
+}
+
+func c13HasHeader(hs []h2Header, k string) bool {
+	for _, h := range hs {
+		if strings.EqualFold(h.K, k) {
+			return true
+		}
+	}
+	return false
+}
+
+// c13Strips: the strip values tried on a route for prefix: none, the route
+// path itself, a proper prefix of it, longer than it, a segment that request
+// paths carry somewhere but (unless the route is the catch-all) not in front,
+// and one that occurs nowhere. All of them end at a segment boundary of every
+// generated request path they prefix.
+func c13Strips(prefix string) []string {
+	out := []string{"", ""}
+	if prefix != "/" {
+		out = append(out, prefix)
+		if i := strings.LastIndex(prefix, "/"); i > 0 {
+			out = append(out, prefix[:i])
+		}
+		out = append(out, prefix+"/s")
+	}
+	return append(out, "/s", "/zzz")
+}
 
 func c13HostPattern(sc *c13Scenario, level string) string {
 	switch level {
@@ -168,6 +245,8 @@ func c13Gen(r *simcore.Run, thorough bool) *c13Scenario {
 		sl := c13Slot{Prefix: fmt.Sprintf("/p%d", j)}
 		if ns == 1 && g.Chance(30) {
 			sl.Prefix = "/" // the catch-all form of the documentation
+		} else if g.Chance(25) {
+			sl.Prefix += "/q" // a route path of two segments: a strip value can be a proper prefix of it
 		}
 		levels := simcore.Pick(g, c13LevelSets)
 		for _, lv := range levels {
@@ -185,11 +264,7 @@ func c13Gen(r *simcore.Run, thorough bool) *c13Scenario {
 				rt.THost = simcore.Pick(g, c13THosts)
 				rt.Form = simcore.Pick(g, c13Forms)
 				rt.TQuery = simcore.Pick(g, c13TQueries)
-				strips := []string{"", "", sl.Prefix, "/zzz"}
-				if sl.Prefix == "/" {
-					strips = []string{"", "", "/zzz"}
-				}
-				rt.Strip = simcore.Pick(g, strips)
+				rt.Strip = simcore.Pick(g, c13Strips(sl.Prefix))
 				rt.Prepend = simcore.Pick(g, c13Prepends)
 				if g.Chance(30) {
 					// the shape that can point back at the request itself
@@ -249,9 +324,40 @@ func c13Gen(r *simcore.Run, thorough bool) *c13Scenario {
 			rq.Slot = g.Intn(ns)
 			rq.Method = simcore.Pick(g, c13Methods)
 			rq.Host = simcore.Pick(g, c13Hosts)
-			rq.Path = c13JoinPath(sc.Slots[rq.Slot].Prefix, simcore.Pick(g, c13Suffixes))
+			prefix := sc.Slots[rq.Slot].Prefix
+			suffixes := c13Suffixes
+			if prefix != "/" {
+				// the route path once more further right: a strip value equal to it occurs twice
+				suffixes = append(append([]string{}, c13Suffixes...), prefix+"/x", "/x"+prefix, prefix)
+			}
+			rq.Path = c13JoinPath(prefix, simcore.Pick(g, suffixes))
 			rq.Query = simcore.Pick(g, c13Queries)
 			rq.XFP = simcore.Pick(g, c13XFPs)
+			onlyRedirects := true
+			for _, c := range c13Candidates(sc, &rq) {
+				onlyRedirects = onlyRedirects && c.Kind == "redirect"
+			}
+			for n := []int{0, 1, 0, 1, 2}[g.Intn(5)]; n > 0; n-- {
+				grp := simcore.Pick(g, c13Extras)
+				dup := false
+				for _, h := range grp {
+					dup = dup || c13HasHeader(rq.Extra, h.K)
+				}
+				// A websocket upgrade is sent only where no plain route can take the request:
+				// what a client gets through a tunnel to a plain upstream is not this property's business.
+				if dup || (c13IsWS(grp) && !onlyRedirects) {
+					continue
+				}
+				rq.Extra = append(rq.Extra, grp...)
+			}
+			switch g.Intn(6) {
+			case 1:
+				rq.BodyLen = g.Range(1, 40)
+			case 2:
+				rq.BodyLen, rq.Chunked = g.Range(1, 40), true
+			case 3:
+				rq.BodyLen, rq.Chunked = g.Range(100, 2000), g.Bool()
+			}
 			switch g.Intn(4) {
 			case 1:
 				rq.Chunks = []int{1, 1, 1}
@@ -261,9 +367,13 @@ func c13Gen(r *simcore.Run, thorough bool) *c13Scenario {
 				rq.Chunks = []int{1 + g.Intn(20), 1 + g.Intn(20), 1 + g.Intn(20)}
 			}
 			cl.Reqs = append(cl.Reqs, rq)
+			if c13IsWS(rq.Extra) {
+				break // a connection that asked for an upgrade is not used for further requests
+			}
 		}
 		sc.Clients = append(sc.Clients, cl)
 	}
+	sc.NoRoute = simcore.Pick(g, c13NoRoute)
 	sc.Stick = []int{1, 1, 3, 8}[g.Intn(4)]
 	return sc
 }
@@ -447,9 +557,9 @@ func c13Self(rt *c13Route, rq *c13Req, v c13Variant) int {
 
 type c13Expectation struct {
 	Acc          []c13Outcome
-	SkipDemanded bool         // the first candidate must be skipped (and a later candidate exists)
+	SkipDemanded bool         // the first candidate must be skipped
 	SelfLocs     []string     // Locations of candidates that point back at the request (settled or left open)
-	MustSkip     []string     // Locations that certainly point back at the request while a further candidate exists
+	MustSkip     []string     // Locations that certainly point back at the request: never the answer
 	Later        []c13Outcome // plain outcomes of the candidates after the first one
 	Redirect     bool         // the first candidate is a redirect route
 }
@@ -476,19 +586,18 @@ func c13ExpectChain(cands []*c13Route, rq *c13Req, depth int, ex *c13Expectation
 			allSelf = false
 		}
 		if self != 0 {
+			// A skipped redirect is not the answer: the next matching host's route
+			// answers, and when no further host has a route the request has no route.
+			// (A redirect that only may point back - self == -1 - stays admitted above.)
 			ex.SelfLocs = append(ex.SelfLocs, loc)
-			if len(rest) > 0 {
-				cont = true
-				if self == 1 {
-					ex.MustSkip = append(ex.MustSkip, loc)
-				}
-			} else {
-				// nothing to skip to: the statement does not say what happens
-				out = append(out, c13Outcome{Kind: "redirect", Code: c.Code, Loc: loc, rt: c}, c13Outcome{Kind: "noroute"})
+			cont = true
+			if self == 1 {
+				ex.MustSkip = append(ex.MustSkip, loc)
 			}
 		}
 	}
 	if cont {
+		// c13ExpectChain(nil, ...) is the no-route answer
 		out = append(out, c13ExpectChain(rest, rq, depth+1, ex)...)
 		if allSelf && depth == 0 {
 			ex.SkipDemanded = true
@@ -527,7 +636,7 @@ func c13Unescape(s string) string {
 
 // c13Judge compares what one request got with what the statement admits.
 func c13Judge(r *simcore.Run, rq *c13Req, got c13Outcome, upstreamSaw string, ex *c13Expectation, others map[string]bool) {
-	what := fmt.Sprintf("%s %s?%s Host=%s X-Forwarded-Proto=%q (id %s)", rq.Method, rq.Path, rq.Query, rq.Host, rq.XFP, rq.ID)
+	what := fmt.Sprintf("%s %s?%s Host=%s X-Forwarded-Proto=%q%s (id %s)", rq.Method, rq.Path, rq.Query, rq.Host, rq.XFP, c13ExtraString(rq), rq.ID)
 	proxyOK := false
 	for _, a := range ex.Acc {
 		if a.Kind == "any" {
@@ -546,6 +655,21 @@ func c13Judge(r *simcore.Run, rq *c13Req, got c13Outcome, upstreamSaw string, ex
 		switch {
 		case a.Kind == "redirect" && got.Kind == "redirect" && a.Code == got.Code && a.Loc == got.Loc && upstreamSaw == "":
 			r.Probe("redirect_answered")
+			if c13IsWS(rq.Extra) {
+				r.Probe("redirect_answered_to_websocket_upgrade")
+			}
+			if c13HasHeader(rq.Extra, "Accept") {
+				r.Probe("redirect_answered_with_accept_header")
+			}
+			if rq.BodyLen > 0 {
+				r.Probe("redirect_answered_to_request_with_body")
+			}
+			if a.rt.Strip != "" && !strings.HasPrefix(rq.Path, a.rt.Strip) && strings.Contains(rq.Path, a.rt.Strip) {
+				r.Probe("strip_value_inside_path_not_stripped")
+			}
+			if a.rt.Strip != "" && strings.HasPrefix(rq.Path, a.rt.Strip) && strings.Contains(rq.Path[len(a.rt.Strip):], a.rt.Strip) {
+				r.Probe("strip_value_twice_in_path")
+			}
 			for _, l := range ex.SelfLocs {
 				if l == got.Loc {
 					r.Probe("unsettled_self_redirect_answered") // e.g. same host and path, scheme known only from the connection
@@ -567,6 +691,9 @@ func c13Judge(r *simcore.Run, rq *c13Req, got c13Outcome, upstreamSaw string, ex
 			return
 		case a.Kind == "noroute" && got.Kind == "noroute":
 			r.Probe("noroute")
+			if len(ex.MustSkip) > 0 {
+				r.Probe("self_redirect_skipped_to_no_route")
+			}
 			return
 		}
 	}
@@ -578,7 +705,7 @@ func c13Judge(r *simcore.Run, rq *c13Req, got c13Outcome, upstreamSaw string, ex
 	if got.Kind == "redirect" {
 		for _, l := range ex.MustSkip {
 			if l == got.Loc {
-				r.Fail("self-redirect", "not-skipped", "%s: redirected to %s, which is the request's own scheme, host and path; a further matching host exists; admitted: %s", what, got.Loc, admitted)
+				r.Fail("self-redirect", "not-skipped", "%s: redirected to %s, which is the request's own scheme, host and path: such a redirect is skipped, the next matching host (or, without one, the no-route answer) is due; admitted: %s", what, got.Loc, admitted)
 				return
 			}
 		}
@@ -654,16 +781,37 @@ func c13H2Req(rq *c13Req) h2Req {
 	if rq.XFP != "" {
 		h.Headers = append(h.Headers, h2Header{"X-Forwarded-Proto", rq.XFP})
 	}
+	h.Headers = append(h.Headers, rq.Extra...)
+	if rq.BodyLen > 0 {
+		pat := []byte("body-of-" + rq.ID + ";")
+		h.Body = bytes.Repeat(pat, rq.BodyLen/len(pat)+1)[:rq.BodyLen]
+		h.BodyLen, h.Chunked = rq.BodyLen, rq.Chunked
+	}
 	return h
 }
 
-func c13Observed(status int, loc string, up string) c13Outcome {
+// c13ExtraString names what else the request carries (for messages and the trace).
+func c13ExtraString(rq *c13Req) string {
+	var b strings.Builder
+	for _, h := range rq.Extra {
+		fmt.Fprintf(&b, " %s=%q", h.K, h.V)
+	}
+	if rq.BodyLen > 0 {
+		fmt.Fprintf(&b, " body=%d", rq.BodyLen)
+		if rq.Chunked {
+			b.WriteString("(chunked)")
+		}
+	}
+	return b.String()
+}
+
+func c13Observed(status int, loc string, up string, noRoute int) c13Outcome {
 	switch {
 	case status >= 300 && status <= 399 && loc != "":
 		return c13Outcome{Kind: "redirect", Code: status, Loc: loc}
 	case up != "":
 		return c13Outcome{Kind: "proxy", Code: status, Up: up}
-	case status == 404:
+	case status == noRoute:
 		return c13Outcome{Kind: "noroute", Code: status}
 	}
 	return c13Outcome{Kind: "other", Code: status, Loc: loc}
@@ -691,7 +839,7 @@ func runC13(r *simcore.Run) {
 	cfg := &config.Config{}
 	cfg.Proxy.Strategy = "rnd"
 	cfg.Proxy.Matcher = "prefix"
-	cfg.Proxy.NoRouteStatus = 404
+	cfg.Proxy.NoRouteStatus = sc.NoRoute
 	cfg.GlobCacheSize = 100
 	cfg.GlobMatchingDisabled = sc.GlobDisabled
 	cfg.Proxy.DialTimeout = 30 * time.Second
@@ -790,7 +938,7 @@ func runC13(r *simcore.Run) {
 					continue // the task panicked; recorded by the panic handler
 				}
 				sawUp[rq.ID] = stub.seen[rq.ID]
-				got[rq.ID] = c13Observed(results[i][k].status, results[i][k].loc, sawUp[rq.ID])
+				got[rq.ID] = c13Observed(results[i][k].status, results[i][k].loc, sawUp[rq.ID], sc.NoRoute)
 			}
 		}
 	default:
@@ -840,26 +988,29 @@ func runC13(r *simcore.Run) {
 				r.Fail("response", "none", "request %s %s (id %s) got no response: %v", rq.Method, rq.Path, rq.ID, res.Err)
 				continue
 			}
-			got[rq.ID] = c13Observed(res.Status, res.Header.Get("Location"), sawUp[rq.ID])
+			got[rq.ID] = c13Observed(res.Status, res.Header.Get("Location"), sawUp[rq.ID], sc.NoRoute)
 		}
-		// no upstream is contacted: every dial fabio made belongs to a request that a plain route may answer
-		proxyable := map[string]int{}
-		for _, rq := range order {
-			for _, a := range expect[rq.ID].Acc {
-				if a.Kind == "proxy" || a.Kind == "any" {
-					proxyable[a.rt.Up]++
-				}
+	}
+
+	// No upstream is contacted: every connection fabio opened - to whatever address, the
+	// host named in a redirect target included - belongs to a request that a plain route
+	// may answer (in tasks mode the transport is a stub, so there nothing is dialled at all).
+	proxyable := map[string]int{}
+	for _, rq := range order {
+		for _, a := range expect[rq.ID].Acc {
+			if a.Kind == "proxy" || a.Kind == "any" {
+				proxyable[a.rt.Up]++
 			}
 		}
-		dials := map[string]int{}
-		for _, dr := range e.net.DialLog {
-			dials[dr.Key]++
-		}
-		for _, dr := range e.net.DialLog {
-			if dials[dr.Key] > proxyable[dr.Key] {
-				r.Fail("upstream", "dialled", "fabio dialled %s %d times; only %d requests of the run may be answered by a plain route to it", dr.Key, dials[dr.Key], proxyable[dr.Key])
-				break
-			}
+	}
+	dials := map[string]int{}
+	for _, dr := range e.net.DialLog {
+		dials[dr.Key]++
+	}
+	for _, dr := range e.net.DialLog {
+		if dials[dr.Key] > proxyable[dr.Key] {
+			r.Fail("upstream", "dialled", "fabio dialled %s %d times; only %d requests of the run may be answered by a plain route to it", dr.Key, dials[dr.Key], proxyable[dr.Key])
+			break
 		}
 	}
 
@@ -868,7 +1019,7 @@ func runC13(r *simcore.Run) {
 		if !ok {
 			continue
 		}
-		r.Tracef("%s %s %s%s?%s xfp=%s -> %s up=%q", rq.ID, rq.Method, rq.Host, rq.Path, rq.Query, rq.XFP, g, sawUp[rq.ID])
+		r.Tracef("%s %s %s%s?%s xfp=%s%s -> %s up=%q", rq.ID, rq.Method, rq.Host, rq.Path, rq.Query, rq.XFP, c13ExtraString(rq), g, sawUp[rq.ID])
 		c13Judge(r, rq, g, sawUp[rq.ID], expect[rq.ID], othersOf(rq.ID))
 	}
 	if redirects > 0 {
